@@ -87,6 +87,11 @@ def gen_cases(ctx):
                    "tiny_limit": i % 25 == 24}
     # larger random instances under a short time limit: the solver usually stops with
     # status "feasible", where metadata and schedule must still agree
+    if ctx.shard == 0:
+        # a solver with a time limit that is created, left alone for longer than the limit and
+        # only then asked to solve a small instance (and again after another pause)
+        yield {"kind": "idle_solver", "instance": gen.gen_instance(rng, "classic", max_jobs=3, max_machines=3),
+               "seed": rng.randrange(2**31), "limit": 1.0}
     for i in range(ctx.scale(4, 240)):
         inst = gen.gen_instance(rng, "classic", max_jobs=1, max_machines=1)
         nj, nm = rng.choice([(15, 10), (20, 10), (20, 15)])
@@ -215,6 +220,25 @@ def run_case(ctx, case):
         if inst["cls"] == "recirc":
             ctx.count("recirc_instances")
         ctx.note_case(case, gen.competing(inst), fingerprint=str(hash(gen.fingerprint(inst))))
+    elif kind == "idle_solver":
+        import time as _t
+        inst = case["instance"]
+        gen._trim(inst, 9)
+        instance = gen.build(inst)
+        solver = ORToolsSolver(max_time_in_seconds=case["limit"])
+        for k in range(2):
+            _t.sleep(case["limit"] + 0.2)
+            try:
+                S = solver.solve(instance)
+            except Exception as e:
+                ctx.violation("c03_no_solution_without_time_limit",
+                              {"error": repr(e)[:200], "note": f"solver idle for longer than its {case['limit']} s limit "
+                               f"before solve number {k + 1}; the instance has {gen.num_ops(inst)} operations"})
+                return
+            judge(ctx, inst, instance, S, "solver left idle for longer than its time limit", time_limited=True)
+        ctx.count("solves_after_an_idle_period_longer_than_the_limit", 2)
+        ctx.count("solves", 2)
+        ctx.note_case(case, True, fingerprint="idle")
     elif kind == "limited":
         inst = case["instance"]
         instance = gen.build(inst)
